@@ -123,6 +123,7 @@ def run(ck):
                     k1, k2 = r.choice(span[c1]), r.choice(span[c2])
                     plan.append(("%s-%s-%d+%s-%d" % (tag, c1, k1, c2, k2), job,
                                  ["%s:error=EIO:when=%d" % (c1, k1), "%s:error=ENOSPC:when=%d" % (c2, k2)]))
+    plan = list({p[0]: p for p in plan}.values())          # random pairs may repeat: one run (and one scratch dir) per tag
     ck.log("%d worker runs planned" % len(plan))
 
     runs = fu.pmap(lambda p: fu.run_sys_job(ck, binp, p[1], p[0], inject=p[2], timeout=500), plan, workers=fu.ncpu_share())
